@@ -528,7 +528,8 @@ def hand_histories() -> list[dict]:
     n0 = {"main.py": "import a\nimport missing2\n", "a.py": "import missing1\n"}
     n1 = {"main.py": "import a\nimport missing2\n", "a.py": "import missing1\n# edited\n"}
     return [
-        H(9010, "directed:trans-dep-hash-of-cycle", "entry", t0, t1, t0),
+        H(9010, "directed:trans-dep-hash-of-cycle", "entry", t0, t1),
+        H(9015, "F9:implicit-submodule-reference-depends-on-transitive-imports", "entry", t0, t1, t0),
         H(9011, "directed:unsuppress-several-appearing-modules", "entry", s0, s1, s1),
         H(9012, "directed:type-ignore-on-import-of-deleted-module", "entry", i0, i1, i0),
         H(9013, "F7:py-replaced-by-identical-pyi", "entry", p0, p1, p0),
@@ -747,13 +748,28 @@ def is_f6(w: dict, c: dict, files: dict) -> bool:
     return True
 
 
-def shrink(h: dict, cfg: str, pre: Prewarmed, base: str, budget_s: float) -> dict:
-    """Delta-debug a failing history: drop edits (states) and files while the LAST step still differs."""
+def classify(w: dict, c: dict, files: dict, h: dict) -> tuple[str, str]:
+    key, what = describe_diff(w, c)
+    if key.startswith("only-once-note-placement:"):
+        return key, what
+    if is_f6(w, c, files):
+        return "F6:from-import-name-becomes-submodule", what
+    return h.get("key") or ("warm!=cold:" + key), what
+
+
+def shrink(h: dict, cfg: str, pre: Prewarmed, base: str, budget_s: float, want_key: str | None = None) -> dict:
+    """Delta-debug a failing history: drop edits (states) and files while the LAST step still differs IN THE SAME WAY
+    (same classification key), so that the reported minimal history shows the divergence that was found."""
     t0 = time.time()
 
     def fails(hh: dict) -> bool:
         r = run_history(hh, cfg, pre, base)
-        return bool(r["steps"]) and canon(r["steps"][-1]["warm"]) != canon(r["steps"][-1]["cold"])
+        if not r["steps"]:
+            return False
+        w, c = r["steps"][-1]["warm"], r["steps"][-1]["cold"]
+        if canon(w) == canon(c):
+            return False
+        return want_key is None or classify(w, c, hh["states"][-1]["files"], hh)[0] == want_key
 
     cur = copy.deepcopy(h)
     k = first_diff(run_history(cur, cfg, pre, base))
@@ -800,6 +816,8 @@ Definition t_analyze (t : list (modid * result)) (S : list modid) (src : modid -
 Definition t_reach (t : list (modid * modid)) (dm : list (modid * list modid)) (m d : modid) : bool :=
   existsb (fun p => Nat.eqb (fst p) m && Nat.eqb (snd p) d) t.
 Definition t_sdo (l : list modid) (o : opts) : nat := match l with [] => 0 | _ => 1 end.
+Definition t_thash (t : list (modid * nat)) (dm : list (modid * list modid)) (m : modid) : nat :=
+  match lookup t m with Some h => h | None => 0 end.
 Definition t_ign (t : list modid) (m : modid) (s : stamp) (o : opts) : bool := mem m t.
 Definition mk_store (l : list (modid * (meta * meta_ex * data))) : store :=
   fold_left (fun c e => put_data (put_ex (put_meta c (fst e) (fst (fst (snd e)))) (fst e) (snd (fst (snd e)))) (fst e) (snd (snd e)))
@@ -808,10 +826,10 @@ Definition ME := Build_meta.
 Definition XE := Build_meta_ex.
 Definition case (cont : list (modid * content)) (imps : list (modid * (content * list modid))) (an : list (modid * result))
   (sccs : list (list modid)) (rch : list (modid * modid)) (ents : list (modid * (meta * meta_ex * data)))
-  (ign : list modid) (fs : FS) (o : opts) :=
+  (ign : list modid) (th : list (modid * nat)) (fs : FS) (o : opts) :=
   let c := mk_store ents in
-  (rechecked (t_content cont) (t_imports imps) (fun _ _ _ => []) (t_analyze an) (fun _ => sccs) (t_reach rch) t_sdo (t_ign ign) c fs o,
-   report fs (fst (run (t_content cont) (t_imports imps) (fun _ _ _ => []) (t_analyze an) (fun _ => sccs) (t_reach rch) t_sdo (t_ign ign) c fs o 1))).
+  (rechecked (t_content cont) (t_imports imps) (fun _ _ _ => []) (t_analyze an) (fun _ => sccs) (t_reach rch) t_sdo (t_thash th) (t_ign ign) c fs o,
+   report fs (fst (run (t_content cont) (t_imports imps) (fun _ _ _ => []) (t_analyze an) (fun _ => sccs) (t_reach rch) t_sdo (t_thash th) (t_ign ign) c fs o 1))).
 """
 
 
@@ -827,6 +845,11 @@ class Interner:
 
 def cl(xs) -> str:
     return "[" + "; ".join(str(x) for x in xs) + "]"
+
+
+def errs(lst) -> list:
+    """error tuples without the once-per-build missing-imports note (its placement is a separate finding, judged by S)"""
+    return [e for e in lst if not any("running_mypy.html#missing-imports" in str(x) for x in e)]
 
 
 def sha1(text: str) -> str:
@@ -869,7 +892,7 @@ def model_cases(h: dict, res: dict) -> list[dict]:
                     cm, cx = ce["meta"], ce["ex"]
                     o_txt = o_txt or f"{{| o_snap := {I(('o', cm['options']))}; o_version := {I(('v', cm['version']))}; o_plugin := {I(('p', cm['plugin']))} |}}"
                     imps.append(f"({mods(m)}, ({cid}, {cl(mods(d) for d in cm['deps'] + cm['supp'] if d in uset or d in cm['supp'])}))")
-                    an.append(f"({mods(m)}, {{| r_iface := {I(('i', cm['ih']))}; r_errors := {cl(I(('e', tuple(e))) for e in cx['errors'])}; "
+                    an.append(f"({mods(m)}, {{| r_iface := {I(('i', cm['ih']))}; r_errors := {cl(I(('e', tuple(e))) for e in errs(cx['errors']))}; "
                               f"r_indirect := {cl(mods(d) for d in cx['deps'] if d in uset)} |}})")
                 for m, e in view.items():
                     if "meta" not in e or "ex" not in e or e.get("data_mtime") is None:
@@ -880,9 +903,9 @@ def model_cases(h: dict, res: dict) -> list[dict]:
                     ents.append(
                         f"({mods(m)}, (ME {I(('s', me['path'], me['mtime'], me['size']))} {I(('c', me['hash']))} "
                         f"{cl(mods(d) for d, _ in dd)} {cl(mods(d) for d in me['supp'])} {I(('o', me['options']))} {I(('v', me['version']))} "
-                        f"{I(('p', me['plugin']))} {0 if me['sdo'] == '' else 1} {I(('i', me['ih']))} {cl(I(('i', x)) for _, x in dd)} "
+                        f"{I(('p', me['plugin']))} {0 if me['sdo'] == '' else 1} {I(('i', me['ih']))} {cl(I(('i', x)) for _, x in dd)} {I(('t', me['thash']))} "
                         f"{'true' if me['ignore_all'] else 'false'} {me['data_mtime'] % 100000}, "
-                        f"XE {cl(mods(d) for d, _ in xd)} {cl(I(('i', x)) for _, x in xd)} {cl(I(('e', tuple(x))) for x in xe['errors'])}, "
+                        f"XE {cl(mods(d) for d, _ in xd)} {cl(I(('i', x)) for _, x in xd)} {cl(I(('e', tuple(x))) for x in errs(xe['errors']))}, "
                         f"{{| d_iface := {I(('i', me['ih']))}; d_mtime := {e['data_mtime'] % 100000} |}}))")
                 sccs = [[m for m in s if m in uset] for s in w["sccs"]]
                 sccs = [s for s in sccs if s]
@@ -908,9 +931,9 @@ def model_cases(h: dict, res: dict) -> list[dict]:
                             todo += list(edges[x])
                     reach[i] = seen
                 rch = [f"({mods(m)}, {mods(d)})" for m in user for d in user if idx[d] in reach[idx[m]]]
-                term = (f"case {cl(cont)} {cl(imps)} {cl(an)} {cl(cl(mods(m) for m in s) for s in sccs)} {cl(rch)} {cl(ents)} {cl(mods(m) for m in user if w["pre"][m].get("ignore_all"))} {cl(fs)} ({o_txt})")
+                term = (f"case {cl(cont)} {cl(imps)} {cl(an)} {cl(cl(mods(m) for m in s) for s in sccs)} {cl(rch)} {cl(ents)} {cl(mods(m) for m in user if w["pre"][m].get("ignore_all"))} {cl(f"({mods(m)}, {I(('t', w['pre'][m]['thash']))})" for m in user)} {cl(fs)} ({o_txt})")
                 exp_re = sorted(mods(m) for m in set(w["rechecked_modules"]) & uset)
-                exp_rep = {mods(m): [I(("e", tuple(x))) for x in w["entries"][m]["ex"]["errors"]] for m in user
+                exp_rep = {mods(m): [I(("e", tuple(x))) for x in errs(w["entries"][m]["ex"]["errors"])] for m in user
                            if "ex" in w["entries"].get(m, {})}
                 cases.append({"term": term, "k": k, "rechecked": exp_re, "report": exp_rep, "topo_ok": topo_ok,
                               "names": {v: kname for kname, v in mods.d.items()}, "idx": h["idx"], "cfg": res["cfg"]})
@@ -1030,13 +1053,7 @@ def judge(ctx, hs: list[dict], results: list[dict], pre: Prewarmed, base: str) -
                     ctx.broke("C", "contract: two cold runs agree", f"history {r['idx']} {r['cfg']} step {rec['k']}: cold(with typeshed cache) {canon(c)} vs cold(empty cache) {canon(rec['cold2'])}",
                               {"states": h["states"][: rec['k'] + 1], "roots": h["roots"]})
             if canon(w) != canon(c):
-                key, what = describe_diff(w, c)
-                if key.startswith("only-once-note-placement:"):
-                    pass
-                elif is_f6(w, c, h["states"][rec["k"]]["files"]):
-                    key = "F6:from-import-name-becomes-submodule"
-                else:
-                    key = h.get("key") or ("warm!=cold:" + key)
+                key, what = classify(w, c, h["states"][rec["k"]]["files"], h)
                 failing.setdefault(key, (h, r["cfg"], rec["k"], what))
     ctx.add("evaluations", n_steps)
     ctx.cov["warm_vs_cold_steps"] = n_steps
@@ -1048,7 +1065,7 @@ def judge(ctx, hs: list[dict], results: list[dict], pre: Prewarmed, base: str) -
         hh = copy.deepcopy(h)
         hh["states"] = hh["states"][: k + 1]
         hh["descs"] = hh["descs"][: k + 1]
-        small = hh if h.get("key") else shrink(hh, cfg, pre, base, budget_s=60 if ctx.quick else 240)
+        small = hh if h.get("key") else shrink(hh, cfg, pre, base, budget_s=60 if ctx.quick else 240, want_key=key)
         last = small["descs"][-1].split(" ")[0] if small["descs"] else "?"
         ctx.violation(key, f"warm run differs from cold run after history {small['descs']} [{cfg}]: {what}",
                       {"kind": "history", "cfg": cfg, "roots": small["roots"], "states": small["states"], "descs": small["descs"], "last_edit": last})
